@@ -195,6 +195,8 @@ impl source::Pin for Source {
 impl source::Fetch for Pinned {
     fn fetch(&self, ctx: source::PinCtx, repo_path: &Path) -> Result<PackageManifestFile> {
         // Co-ordinate access to the git checkout directory using an advisory file lock.
+        #[cfg(fuellabs_sway_verif)]
+        verif::fault("pinned-fetch:path-lock")?;
         let mut lock = forc_util::path_lock(repo_path)?;
         // TODO: Here we assume that if the local path already exists, that it contains the
         // full and correct source for that commit and hasn't been tampered with. This is
@@ -205,14 +207,20 @@ impl source::Fetch for Pinned {
         // https://github.com/FuelLabs/sway/issues/7075
         {
             let _guard = lock.write()?;
+            #[cfg(fuellabs_sway_verif)]
+            verif::fault("pinned-fetch:exists-check")?;
             if !repo_path.exists() {
                 println_action_green(
                     "Fetching",
                     &format!("{} {}", ansiterm::Style::new().bold().paint(ctx.name), self),
                 );
                 fetch(ctx.fetch_id(), ctx.name(), self)?;
+                #[cfg(fuellabs_sway_verif)]
+                verif::fault("pinned-fetch:fetched")?;
             }
         }
+        #[cfg(fuellabs_sway_verif)]
+        verif::fault("pinned-fetch:find-manifest")?;
         let path = {
             let _guard = lock.read()?;
             manifest::find_within(repo_path, ctx.name())
@@ -425,6 +433,8 @@ where
 {
     // Clear existing temporary directory if it exists.
     let repo_dir = tmp_git_repo_dir(fetch_id, name, &source.repo);
+    #[cfg(fuellabs_sway_verif)]
+    verif::fault("tmp-repo:remove-old")?;
     if repo_dir.exists() {
         let _ = std::fs::remove_dir_all(&repo_dir);
     }
@@ -432,6 +442,11 @@ where
     // Add a guard to ensure cleanup happens if we got out of scope whether by
     // returning or panicking.
     let _cleanup_guard = scopeguard::guard(&repo_dir, |dir| {
+        // An injected error here stands for a failed (skipped) clean-up.
+        #[cfg(fuellabs_sway_verif)]
+        if verif::fault("tmp-repo:cleanup").is_err() {
+            return;
+        }
         let _ = std::fs::remove_dir_all(dir);
     });
 
@@ -447,6 +462,8 @@ where
     });
 
     // Initialise the repository.
+    #[cfg(fuellabs_sway_verif)]
+    verif::fault("tmp-repo:init")?;
     let repo = git2::Repository::init(&repo_dir)
         .map_err(|e| anyhow!("failed to init repo at \"{}\": {}", repo_dir.display(), e))?;
 
@@ -461,6 +478,8 @@ where
         fetch_opts.download_tags(git2::AutotagOption::All);
     }
     let repo_url_string = source.repo.to_string();
+    #[cfg(fuellabs_sway_verif)]
+    verif::fault("tmp-repo:fetch")?;
     repo.remote_anonymous(&repo_url_string)?
         .fetch(&refspecs, Some(&mut fetch_opts), None)
         .with_context(|| {
@@ -471,6 +490,8 @@ where
         })?;
 
     // Call the user function.
+    #[cfg(fuellabs_sway_verif)]
+    verif::fault("tmp-repo:fetched")?;
     let output = f(repo)?;
     Ok(output)
 }
@@ -522,19 +543,35 @@ pub fn fetch(fetch_id: u64, name: &str, pinned: &Pinned) -> Result<PathBuf> {
     with_tmp_git_repo(fetch_id, name, &pinned.source, |repo| {
         // Change HEAD to point to the pinned commit.
         let id = git2::Oid::from_str(&pinned.commit_hash)?;
+        #[cfg(fuellabs_sway_verif)]
+        verif::fault("fetch:set-head")?;
         repo.set_head_detached(id)?;
 
         // If the directory exists, remove it. Note that we already check for an existing,
         // cached checkout directory for re-use prior to reaching the `fetch` function.
+        #[cfg(fuellabs_sway_verif)]
+        verif::fault("fetch:remove-old")?;
         if path.exists() {
             let _ = fs::remove_dir_all(&path);
         }
+        #[cfg(fuellabs_sway_verif)]
+        verif::fault("fetch:create-dir")?;
         fs::create_dir_all(&path)?;
 
         // Checkout HEAD to the target directory.
         let mut checkout = git2::build::CheckoutBuilder::new();
         checkout.force().target_dir(&path);
+        // libgit2 cannot be interrupted from its progress callback, so an injected fault can only
+        // end the process here (a crash between two files of the checkout).
+        #[cfg(fuellabs_sway_verif)]
+        checkout.progress(|_, _, _| {
+            let _ = verif::fault("fetch:checkout-progress");
+        });
+        #[cfg(fuellabs_sway_verif)]
+        verif::fault("fetch:checkout")?;
         repo.checkout_head(Some(&mut checkout))?;
+        #[cfg(fuellabs_sway_verif)]
+        verif::fault("fetch:checked-out")?;
 
         // Fetch HEAD time and create an index
         let current_head = repo.revparse_single("HEAD")?;
@@ -549,10 +586,14 @@ pub fn fetch(fetch_id: u64, name: &str, pinned: &Pinned) -> Result<PathBuf> {
         );
 
         // Write the index file
+        #[cfg(fuellabs_sway_verif)]
+        verif::fault("fetch:write-index")?;
         fs::write(
             path.join(".forc_index"),
             serde_json::to_string(&source_index)?,
         )?;
+        #[cfg(fuellabs_sway_verif)]
+        verif::fault("fetch:index-written")?;
         Ok(())
     })?;
     Ok(path)
@@ -687,6 +728,31 @@ where
         }
     }
     Ok(())
+}
+
+/// Verification hook (only with `--cfg fuellabs_sway_verif`): `fault(label)` is called before and
+/// after each file-system step of fetching a git source. It returns `Ok(())` unless a harness has
+/// installed a callback with `set_fault_hook`; the callback may return an error to inject an I/O
+/// failure at that point, or end the process to simulate a crash.
+#[cfg(fuellabs_sway_verif)]
+pub mod verif {
+    use std::{io, sync::OnceLock};
+
+    type FaultHook = Box<dyn Fn(&str) -> io::Result<()> + Send + Sync>;
+    static FAULT_HOOK: OnceLock<FaultHook> = OnceLock::new();
+
+    /// Installs the process-wide callback. Returns `false` if one was already installed.
+    pub fn set_fault_hook(hook: FaultHook) -> bool {
+        FAULT_HOOK.set(hook).is_ok()
+    }
+
+    #[inline]
+    pub fn fault(label: &str) -> io::Result<()> {
+        match FAULT_HOOK.get() {
+            Some(hook) => hook(label),
+            None => Ok(()),
+        }
+    }
 }
 
 #[test]
